@@ -45,7 +45,7 @@ export const STD_MODULES = {
     vA: { k: 'sent', id: 'vA' }, vB: { k: 'sent', id: 'vB' },
   },
   'probe:ns': {
-    Comp: { k: 'comp', id: 'ns.Comp' },
+    Comp: { k: 'comp', id: 'ns.Comp' }, div: { k: 'comp', id: 'ns.div' }, span: { k: 'comp', id: 'ns.span' }, 'x': { k: 'comp', id: 'ns.x' },
     inner: { k: 'obj', v: { Deep: { k: 'comp', id: 'ns.inner.Deep' } } },
   },
 };
